@@ -276,6 +276,19 @@ class BatchEval(GenEval):
                     return v
         return super()._call(node)
 
+    def _subscript(self, node):
+        base = self._ev(node.value)
+        if isinstance(base, Steps):
+            # a range of the steps: `ABF.T[1:]`, `force.T[:-1]`, `PQF.T[: nt - 1]`
+            if base.kind != "cols" or not isinstance(node.slice, ast.Slice):
+                raise Unsupported(f"`{ast.unparse(node)[:60]}`: indexing of a sequence of time steps")
+            c = self._comp(node.slice)
+            atoms = series_atoms(base.value)
+            self.check_lengths(atoms)
+            mp = {a: self.mkref(root, rows, compose_col(col, c)) for a, (root, rows, col) in atoms.items()}
+            return Steps("cols", value=rewrite(base.value, mp))
+        return super()._subscript(node)
+
     def _bind_steps(self, target, it, pos):
         """bind the loop target to item `pos` (a value: position in the iteration) of the iterable"""
         if it.kind == "cols":
